@@ -25,12 +25,23 @@ def thresholds(n):
 
 def plan(tier):
     if tier == "quick":
-        specs = [(2, [("dense", 1, 5), ("bounded", 3, 6, 8)], MENU_Q), (3, [("dense", 1, 3)], MENU_Q),
+        specs = [(2, [("dense", 1, 5), ("bounded", 3, 6, 7)], MENU_Q), (3, [("dense", 1, 3)], MENU_Q[:3]),
                  (4, [("dense", 1, 2)], MENU_Q[:2]), (5, [("dense", 1, 1), ("bounded", 1, 2, 2)], MENU_Q[:2])]
     else:
         specs = [(2, [("dense", 1, 7), ("bounded", 3, 8, 10)], MENU_T), (3, [("dense", 1, 4)], MENU_T),
                  (4, [("dense", 1, 3)], MENU_Q), (5, [("dense", 1, 2)], MENU_Q[:2])]
     tasks, descs = [], []
+    mixed_ks = (8,) if tier == "quick" else (8, 10)
+    for be in ("py", "pyx"):
+        for sh in range(32):
+            tasks.append({"backend": be, "mode": "mixed", "ks": list(mixed_ks), "shard": sh,
+                          "nshards": 32})
+    descs.append({"regime": "mixed-rate triples", "clocks": list(mixed_ks),
+                  "states": pairs.mixed_rate_count(mixed_ks), "menu_max_tau_MRTS": [[None, "auto"]],
+                  "what": "two trains with <=2 spikes x a third train in {empty, every tick, every "
+                          "second tick}, MRTS='auto': the pooled threshold of the whole list "
+                          "decides (C15), and only there does it differ enough from pair-wise "
+                          "thresholds to change a coincidence"})
     for N, regimes, menu in specs:
         tasks += pairs.regime_tasks(N, regimes, ["py", "pyx"], extra={"menu": menu}, nshards=48)
         d, _ = pairs.describe_regimes(regimes, N)
@@ -63,11 +74,18 @@ def evaluate(r, trains, edges, max_tau, mrts, be, rank=()):
     n = len(trains)
     sts = [spk.SpikeTrain(t, edges) for t in trains]
     case = {"trains": trains, "edges": edges, "max_tau": max_tau, "MRTS": mrts}
-    cls = "N%d" % n
+    cls = "N%d" % n + ("/auto" if mrts == "auto" else "")
     ets, ete = O.ex(ts), O.ex(te)
     E = [O.exl(t) for t in trains]
     emt = O.ex(max_tau) if max_tau else 0
-    em = O.ex(mrts)
+    if mrts == "auto":
+        # pooled RMS threshold of the whole list, in exact arithmetic up to the final root
+        from fractions import Fraction
+        import math
+        pool = O.isi_lengths_pool(E, ets, ete)
+        em = Fraction(math.sqrt(float(Fraction(sum(p * p for p in pool), len(pool)))))
+    else:
+        em = O.ex(mrts)
     counts = []
     for i in range(n):
         c = [0] * len(E[i])
@@ -160,6 +178,17 @@ def check_state(r, k, masks, task):
 
 
 def run_task(task):
+    if task.get("mode") == "mixed":
+        r = Result()
+        for k, masks in pairs.mixed_rate_triples(tuple(task["ks"]), 2, task["shard"],
+                                                 task["nshards"]):
+            r.states += 1
+            r.transitions += 1
+            r.sigs.add(lattice.signature(k, masks))
+            trains = [lattice.times(m) for m in masks]
+            evaluate(r, trains, lattice.edges(k), None, "auto", task["backend"],
+                     (k, pairs.nspikes(masks)))
+        return r
     return pairs.run_states(task, check_state, ID)
 
 
